@@ -148,7 +148,8 @@ bool ExecImpl::report_matches(const PRep& p, const XRep& x, std::string& why) {
       for (auto& l : p.listed) { std::string k = l.text + "@" + l.file + ":" + std::to_string(l.line); a.push_back(k); if (l.text.find("REQUIRE_DESTRUCTION") == std::string::npos) a2.push_back(k); }
       for (auto& en : x.entries) { b.push_back(key(en)); if (!en.is_mon) b2.push_back(key(en)); }
       if (a == b) return true;
-      if (a2 == b2 && !b2.empty()) { ++st.relax_monitor_listing; return true; }
+      if (x.any_of_m) return true;  // tainted sequence: the listing is not asserted
+      if (a2 == b2) { ++st.relax_monitor_listing; return true; }
       why = "lists [";
       for (auto& s : a) why += s + "; ";
       why += "] but still registered, in registration order, are [";
@@ -309,7 +310,12 @@ void ExecImpl::op_destroy_watched(const Op& op) {
     for (int mid : ms) {
       MMon& m = M.mons[mid];
       for (int i = 0; i < m.nseq; ++i) {
-        if (m.seq[i] < 0) continue;
+        if (m.seq[i] < 0) {
+          // that sequence object was destroyed while the requirement was registered: what the requirement then does
+          // is fixed by no property (DESIGN 3.5), a report is allowed, not required
+          XRep x; x.kind = RK_SEQMISMATCH; x.fatal = false; x.mon = mid; x.seqidx = i; x.optional = true; want.push_back(x);
+          continue;
+        }
         bool eligible = m.in_seq[i] && M.pos_in(m.seq[i], true, mid) >= 0;
         if (!eligible && !M.seqs[m.seq[i]].tainted) {
           XRep x; x.kind = RK_SEQMISMATCH; x.fatal = false; x.mon = mid; x.seqidx = i; want.push_back(x);
